@@ -178,6 +178,30 @@ def nested():
     out.append((dflt_of, {'id': 1, 'numbers': [7, 8]}))
     out.append((dflt_of, {'id': 1, 'numbers': [8, 7], 'names': [b'a']}))
     out.append((dflt_of, {'id': 2, 'numbers': [7, 8, 9], 'names': [b'b', b'a']}))
+    # SET with untagged CHOICE members: DER orders by the tag of the chosen alternative (X.690 10.3), CER by the
+    # smallest tag of the CHOICE type (9.3)
+    uch = T('CHOICE', [], fields=[('x', T('INTEGER', [('I', CTX, 5)]), 'req'), ('y', T('BOOLEAN'), 'req'),
+                                  ('z', T('CHOICE', [], fields=[('p', T('OCTETSTRING', [('I', APP, 1)]), 'req'),
+                                                                ('q', T('NULL', [('E', CTX, 9)]), 'req')]), 'req')])
+    set_ch = T('SET', [], fields=[('a', T('INTEGER'), 'req'), ('c', uch, 'req'), ('n', T('NULL', [('I', CTX, 3)]), 'req'),
+                                  ('s', T('IA5String', [('I', APP, 0)]), 'opt')])
+    for cv in (('x', 7), ('y', True), ('z', ('p', b'pp')), ('z', ('q', None))):
+        out.append((set_ch, {'a': 1, 'c': cv, 'n': None}))
+        out.append((set_ch, {'a': 1, 'c': cv, 'n': None, 's': 'str'}))
+    # DEFAULT members of record type (with DEFAULT / OPTIONAL members of their own): reading them must not change bytes
+    inner_d = T('SEQUENCE', [], fields=[('a', T('INTEGER'), 'req'), ('c', T('INTEGER'), ('default', 5))])
+    inner_e = T('SEQUENCE', [('I', CTX, 4)], fields=[('a', T('INTEGER'), 'opt'), ('b', T('BOOLEAN'), ('default', True))])
+    outer_d = T('SEQUENCE', [], fields=[('n', T('INTEGER'), 'req'), ('inner', inner_d, ('default', {'a': 1})),
+                                        ('empty', inner_e, ('default', {})), ('last', T('NULL'), 'opt')])
+    out.append((outer_d, {'n': 7}))
+    out.append((outer_d, {'n': 7, 'inner': {'a': 1}, 'empty': {}}))
+    out.append((outer_d, {'n': 7, 'inner': {'a': 1, 'c': 5}, 'empty': {'b': True}, 'last': None}))
+    out.append((outer_d, {'n': 7, 'inner': {'a': 2}, 'empty': {'a': 0}}))
+    # CER 9.3 with explicitly tagged alternatives: the smallest *outermost* tag counts, not the smallest base tag
+    ech = T('CHOICE', [], fields=[('a', T('UTF8String', [('E', CTX, 0)]), 'req'), ('b', T('INTEGER', [('I', APP, 5)]), 'req')])
+    set_ech = T('SET', [], fields=[('c', ech, 'req'), ('m', T('NULL', [('I', APP, 7)]), 'req'), ('k', T('BOOLEAN', [('I', CTX, 1)]), 'req')])
+    out.append((set_ech, {'c': ('a', 'txt'), 'm': None, 'k': True}))
+    out.append((set_ech, {'c': ('b', 300), 'm': None, 'k': False}))
     wrap = T('SEQUENCE', [('E', PRIV, 77)], fields=[('s', sett, 'req'), ('z', T('NULL'), 'opt')])
     out.append((wrap, {'s': {'p': 9, 'q': b''}}))
     out.append((wrap, {'s': {'p': 9, 'q': b'', 'r': False}, 'z': None}))
@@ -282,6 +306,28 @@ def random_pairs(seed, n, depth=3):
     return out
 
 
+def constrained():
+    """types with subtype constraints (C10, C14): 'range', 'size', 'present'; 'violating' lists values of the
+    unconstrained twin type that the constrained type must not accept"""
+    out = []
+    small = T('INTEGER', range=(0, 7))
+    out.append((dict(small, violating=[8, -1, 256]), 3))
+    out.append((dict(T('OCTETSTRING', size=(1, 3)), violating=[b'', b'abcd']), b'ab'))
+    out.append((dict(T('UTF8String', [('E', CTX, 2)], size=(0, 2)), violating=['abc']), 'a'))
+    lst = T('SEQUENCEOF', elem=T('INTEGER'), size=(1, 2))
+    out.append((dict(lst, violating=[[], [1, 2, 3]]), [1, 2]))
+    st = T('SETOF', [('I', CTX, 1)], elem=T('BOOLEAN'), size=(0, 1))
+    out.append((dict(st, violating=[[True, False]]), [True]))
+    rec = T('SEQUENCE', fields=[('a', T('INTEGER'), 'opt'), ('b', T('BOOLEAN'), 'opt')], present=['a'])
+    out.append((dict(rec, violating=[{}, {'b': True}]), {'a': 1}))
+    outer = T('SEQUENCE', fields=[('p', small, 'req'), ('l', lst, 'opt'), ('q', T('OCTETSTRING', [('I', CTX, 0)], size=(2, 2)), 'opt')])
+    out.append((dict(outer, violating=[{'p': 9}, {'p': 1, 'l': [1, 2, 3]}, {'p': 1, 'q': b'x'}, {'p': 1, 'l': []}]),
+                {'p': 1, 'l': [5], 'q': b'xy'}))
+    ch = T('CHOICE', fields=[('i', small, 'req'), ('l', lst, 'req')])
+    out.append((dict(ch, violating=[('i', 100), ('l', [])]), ('l', [1])))
+    return out
+
+
 def universe(seed=0, tier='quick', include_long=False):
     """-> list of (T, v).  quick samples the leaf product; thorough takes all of it."""
     rng = random.Random(seed)
@@ -294,6 +340,7 @@ def universe(seed=0, tier='quick', include_long=False):
     out = lv + records() + collections() + choices() + nested()
     # generated types of depth <= 3 with random members, tags, OPTIONAL/DEFAULT modes and values
     out += random_pairs(seed, 60 if tier == 'quick' else 3000)
+    out += constrained()
     if include_long:
         out += long_strings()
     return out
